@@ -222,7 +222,7 @@ def check_lineage_history(case):
     ls, seed = case["lspec"], case["seed"]
     with specmod.quiet():
         F = lingen.to_lineage_model(ls)                       # built at once
-        M = lingen.base_lineage_model(ls)                     # reached step by step
+        M = lingen.base_lineage_model(ls, reactions=not case.get("stepwise_reactions"))   # reached step by step
     used = False
     edit_after_use = False
     for st_ in case["steps"]:
@@ -236,6 +236,18 @@ def check_lineage_history(case):
                 except ValueError:
                     pass
                 used = True
+            elif st_[0] == "reaction":
+                M.create_reaction(*specmod.reaction_tuple(ls["base"]["reactions"][st_[1]]))
+                res.label("edit:base_reaction")
+                edit_after_use = edit_after_use or used
+            elif st_[0] == "set_param":
+                M.set_parameter(st_[1], st_[2])
+                res.label("edit:parameter_value")
+                edit_after_use = edit_after_use or used
+            elif st_[0] == "set_species":
+                M.set_species({st_[1]: st_[2]})
+                res.label("edit:species_value")
+                edit_after_use = edit_after_use or used
             else:
                 item = ls[st_[0]][st_[1]]
                 {"growth": lingen.add_growth, "division": lingen.add_division, "death": lingen.add_death}[st_[0]](M, item)
@@ -685,14 +697,37 @@ def lineage_history_cases(draw):
         pos = [k for k, it in enumerate(order) if it[0] == cls]
         for j, k in enumerate(pos):
             order[k] = (cls, j)
+    base = ls["base"]
+    stepwise = bool(base["reactions"]) and draw(st.booleans())
+    if stepwise:            # the base reactions are added one at a time too (in their declared order)
+        for i in range(len(base["reactions"])):
+            order.insert(draw(st.integers(0 if i == 0 else order.index(("reaction", i - 1)) + 1, len(order))), ("reaction", i))
+    restore = []
     steps = []
     for it in order:
         for _ in range(draw(st.sampled_from([0, 1, 1, 2]))):
-            steps.append(draw(st.sampled_from([["init"], ["init"], ["sim", draw(st.integers(1, 2 ** 31))]])))
+            what = draw(st.sampled_from(["init", "init", "sim", "sim", "param", "species"]))
+            if what == "init":
+                steps.append(["init"])
+            elif what == "sim":
+                steps.append(["sim", draw(st.integers(1, 2 ** 31))])
+            elif what == "param" and base["params"]:
+                # a temporary value, put back before the final comparison
+                name = draw(st.sampled_from(sorted(base["params"])))
+                steps.append(["set_param", name, float(base["params"][name]) * draw(st.sampled_from([0.5, 2.0]))])
+                if ["set_param", name, float(base["params"][name])] not in restore:
+                    restore.append(["set_param", name, float(base["params"][name])])
+            elif what == "species":
+                name = draw(st.sampled_from(sorted(base["x0"])))
+                steps.append(["set_species", name, float(base["x0"][name]) + draw(st.sampled_from([1.0, 3.0]))])
+                if ["set_species", name, float(base["x0"][name])] not in restore:
+                    restore.append(["set_species", name, float(base["x0"][name])])
         steps.append(list(it))
+    steps += restore
     if draw(st.booleans()):
         steps.append(["init"])
-    return {"kind": "lineage_history", "lspec": ls, "steps": steps, "seed": draw(st.integers(1, 2 ** 40))}
+    return {"kind": "lineage_history", "lspec": ls, "steps": steps, "seed": draw(st.integers(1, 2 ** 40)),
+            "stepwise_reactions": stepwise}
 
 
 def search(ctx):
